@@ -376,7 +376,7 @@ pub fn escape_key(k: &str) -> String {
 
 /// The leaves of the event with their escaped dot-paths (written from the spec: keys joined with
 /// `.`, dots and backslashes inside keys escaped with a backslash).
-fn leaves(v: &Value, path: Option<String>, out: &mut Vec<(String, Value)>) {
+pub fn leaves(v: &Value, path: Option<String>, out: &mut Vec<(String, Value)>) {
     match v {
         Value::Object(m) if !m.is_empty() => {
             for (k, x) in m {
@@ -493,7 +493,7 @@ fn pick_ids(rng: &mut Rng, pool: &[&str], max: usize) -> Vec<String> {
     ids
 }
 
-pub fn gen_match(rng: &mut Rng) -> (String, String) {
+pub fn gen_match(rng: &mut Rng, extra: &mut Vec<Req>) -> (String, String) {
     let me = if rng.chance(1, 4) { "@alice:example.org" } else { "@me:example.org" };
     let ev = gen_event(rng, me);
     let mut flat = vec![];
@@ -560,6 +560,45 @@ pub fn gen_match(rng: &mut Rng) -> (String, String) {
     let rs = json!([override_, content, room, sender, underride]);
     let payload = format!("{} {} {}", h_util::jtoks(&rs), h_util::jtoks(&ctx), h_util::jtoks(&ev));
     let cls = format!("match.{}", ev.get("sender").map_or("nosender", |s| if s == me { "self" } else { "other" }));
+    // the parts on their own: every condition of the conditional rules, property lookups (real paths,
+    // near misses of real paths), contains_mentions
+    if rng.chance(1, 2) {
+        let evt = h_util::jtoks(&ev);
+        let ctxt = h_util::jtoks(&ctx);
+        let mut conds: Vec<&Value> = vec![];
+        for rules in [&override_, &underride] {
+            for r in rules.as_array().unwrap() {
+                conds.extend(r[2].as_array().unwrap());
+            }
+        }
+        for c in conds.into_iter().take(4) {
+            for op in ["c12.cond", "c12.spec.cond"] {
+                extra.push(Req::new(format!("{op} {} {ctxt} {evt}", h_util::jtoks(c)), format!("cond.{}", &op[4..])));
+            }
+        }
+        let mut paths: Vec<String> = vec![];
+        for _ in 0..3 {
+            if !flat.is_empty() {
+                let p = rng.pick(&flat).0.clone();
+                paths.push(match rng.below(6) {
+                    0 => p.replace("\\.", "."),
+                    1 => p.replace("\\\\", "\\"),
+                    2 => format!("{p}.x"),
+                    3 => p.rsplit_once('.').map_or(String::new(), |(a, _)| a.to_owned()),
+                    _ => p,
+                });
+            }
+        }
+        paths.push((*rng.pick(&["", "content", "content.body", "sender", ".", "\\", "content.m\\.mentions", "k"])).to_owned());
+        for p in paths {
+            for op in ["c12.get", "c12.spec.get"] {
+                extra.push(Req::new(format!("{op} {evt} {}", stok(&p)), format!("get.{}", &op[4..])));
+            }
+        }
+        for op in ["c12.mentions", "c12.spec.mentions"] {
+            extra.push(Req::new(format!("{op} {evt}"), format!("mentions.{}", &op[4..])));
+        }
+    }
     (payload, cls)
 }
 
@@ -618,9 +657,11 @@ pub fn gen(rng: &mut Rng, n: usize, tier: &str) -> Vec<Req> {
     }
     // (c) rulesets × contexts × events
     for _ in 0..(n - 2 * k) {
-        let (payload, cls) = gen_match(rng);
+        let mut extra = vec![];
+        let (payload, cls) = gen_match(rng, &mut extra);
         out.push(Req::new(format!("c12.match {payload}"), cls.clone()));
         out.push(Req::new(format!("c12.spec.match {payload}"), format!("spec.{cls}")));
+        out.append(&mut extra);
     }
     out
 }
